@@ -6,8 +6,8 @@
    [wf g] = the extracted step graph has the shape the Step API guarantees ([wf_shape]) AND the interned
    variant ids of the package dependencies of every instance are smaller than the id of the depending
    package, i.e. the variant graph over ALL package instances is acyclic. *)
-From Coq Require Import List NArith Bool Relations.
-Require Import BobV.C20.Model BobV.C20.Proofs.
+From Coq Require Import List NArith Bool Arith Relations.
+Require Import BobV.C20.Model BobV.C20.Proofs BobV.C20.FuelProofs.
 Import ListNotations.
 
 (* P1. "childs is closed under job-level reachability" holds after the spanning phase of every
@@ -163,3 +163,116 @@ Proof.
   eexists. eexists. eexists. split; [reflexivity|]. split; [vm_compute; reflexivity|].
   split; [vm_compute; reflexivity|]. split; [vm_compute; reflexivity|]. split; vm_compute; reflexivity.
 Qed.
+
+(* ---- fuel sufficiency: the recursive functions of Model.v run on explicit fuel and return OutOfFuel
+   (OFuel in the build order) when it is used up; the theorems above exclude that result by hypothesis
+   ([... = Ok ...]).  The theorems below show that it cannot occur with the fuel the entry points of the model
+   pass, so nothing is lost.  Vocabulary (defined in FuelProofs.v, all boolean):
+     [topo g]      every dependency (argument, tool, sandbox) of the step at position i is at a position < i
+                   (the harness numbers the Step objects in post-order; the recipe graph of Bob is acyclic);
+     [bounded st]  every AbstractJob referenced by vidToJob or by a list of nameToJobs has been allocated
+                   (its id is below the allocation counter st_next);
+     [refs_ok g r] self.__referenceStep maps a variant id to a package step of the graph with that id;
+     [dval l], [is_digit c]   the value of a string of decimal digits / '0' <= c <= '9'. *)
+
+(* [topo] is implied by what the harness checks on every extracted graph *)
+Theorem wf_implies_topo : forall g,
+  (wf_shape g = true -> topo g = true) /\ (wf g = true -> topo g = true).
+Proof. exact (fun g => conj (wf_shape_topo_proof g) (wf_topo g)). Qed.
+
+(* addStep: the recursion follows dependencies, i.e. goes to smaller positions, so [sid + 1] units of fuel are
+   enough for the step at position sid and [length g + 1] for any step (span_roots passes S (length g)) *)
+Theorem add_step_fuel_enough : forall g sid par st, topo g = true ->
+  (forall fuel, sid < fuel -> add_step fuel g sid par st <> OutOfFuel) /\
+  add_step (S (length g)) g sid par st <> OutOfFuel.
+Proof. exact (fun g sid par st T => conj (fun fuel H => add_step_fuel g T fuel sid par st H)
+                                         (add_step_fuel_enough_proof g sid par st T)). Qed.
+
+(* the spanning phase never runs out of fuel, and it establishes the two invariants the later phases need *)
+Theorem span_fuel_enough : forall g roots, topo g = true ->
+  span g roots <> OutOfFuel /\
+  forall st, span g roots = Ok st -> bounded st = true /\ refs_ok g (st_ref st) = true.
+Proof. exact (fun g roots T => conj (span_fuel_enough_proof g roots T) (span_bounded_proof g roots)). Qed.
+
+(* addChilds: a job is entered only while its childs do not contain X and is marked before the recursion;
+   so a chain of calls visits distinct allocated jobs and S (st_next st) units of fuel (what merge_two
+   passes) are enough — whether or not the parents relation is acyclic *)
+Theorem add_childs_fuel_enough : forall st ps X,
+  bounded st = true -> add_childs (S (st_next st)) ps X st <> OutOfFuel.
+Proof. exact add_childs_fuel_enough_proof. Qed.
+
+(* the greedy merge loop of one name: every round removes at least the head of the todo list *)
+Theorem merge_name_fuel_enough : forall st todo,
+  bounded st = true -> forallb (fun k => Nat.ltb k (st_next st)) todo = true ->
+  merge_name (S (length todo)) todo st <> OutOfFuel.
+Proof. exact merge_name_fuel_enough_proof. Qed.
+
+(* ... and the loop over all names *)
+Theorem merge_all_fuel_enough : forall st, bounded st = true -> merge_all st <> OutOfFuel.
+Proof. exact merge_all_fuel_enough_proof. Qed.
+
+(* prefix naming has no fuel of its own; the decimal rendering of the counter (fuel n + 1, silently
+   truncating when the fuel is used up) is never truncated: the digits denote n, and any larger fuel gives the
+   same string *)
+Theorem names_fuel_enough :
+  (forall st items fnm, final_names st items fnm <> OutOfFuel) /\
+  (forall n, dval (dec n) = N.of_nat n /\ forallb is_digit (dec n) = true /\ dec n <> [] /\
+             forall fuel, n < fuel -> dec_aux fuel (N.of_nat n) [] = dec n).
+Proof. exact (conj names_fuel_enough_proof dec_fuel_enough_proof). Qed.
+
+(* JobNameCalculator.sanitize as a whole *)
+Theorem sanitize_fuel_enough : forall g roots, topo g = true -> sanitize g roots <> OutOfFuel.
+Proof. exact sanitize_fuel_enough_proof. Qed.
+
+(* _genJenkinsJobs: under [wf g] the pair (variant id of the owning package, position inside the package)
+   decreases along every call, also across getReferenceStep (which keeps the variant id); at most
+   [length g] nested calls, gen_roots passes S (S (length g)).
+   Full statement (FALSE of the model, see gen_jobs_fuel_wf_shape_refuted): the same with [wf_shape g]. *)
+Theorem gen_jobs_fuel_enough : forall prefix short g nm sid gs,
+  wf g = true -> refs_ok g (st_ref (nm_state nm)) = true ->
+  gen_jobs (S (S (length g))) prefix short g nm sid gs <> OutOfFuel.
+Proof.
+  exact (fun prefix short g nm sid gs W R =>
+           gen_jobs_fuel prefix short g nm W R (S (S (length g))) sid gs
+                         (le_n_S _ _ (Nat.le_trans _ _ _ (rank_bound g sid) (Nat.le_succ_diag_r _)))).
+Qed.
+
+Theorem gen_roots_fuel_enough : forall prefix short g roots sroots nm jobs,
+  wf g = true -> sanitize g roots = Ok nm -> gen_roots prefix short g nm sroots jobs <> OutOfFuel.
+Proof. exact gen_roots_fuel_enough_proof. Qed.
+
+(* genJenkinsBuildOrder, for every upstream relation (cyclic ones end in OCyclic): a job is put into
+   [processing] before its upstream jobs are visited, and every round of the outer loop removes the picked
+   job from [pending] *)
+Theorem build_order_fuel_enough : forall ups,
+  (forall j o, visit (S (S (length ups))) ups j o <> OFuel) /\ build_order ups <> OFuel.
+Proof. exact (fun ups => conj (visit_fuel_enough_proof ups) (build_order_fuel_enough_proof ups)). Qed.
+
+(* the entry point (genJenkinsJobs + genJenkinsBuildOrder): never out of fuel on a well-formed graph, for
+   every prefix, shortdescription setting and root lists *)
+Theorem gen_jobs_never_out_of_fuel : forall prefix short g roots sroots,
+  wf g = true -> run prefix short g roots sroots <> ModelOutOfFuel.
+Proof. exact run_never_out_of_fuel_proof. Qed.
+
+(* Without "the variant graph over all instances is acyclic" the recursion of the MODEL of _genJenkinsJobs
+   need not be well-founded: two instances of one variant, the reference instance depending through arguments
+   on the other one.  (Not an input of the real code: getVariantId hashes the variant ids of arguments and
+   tools, only sandbox edges can close such a cycle, and those are cut by seenPackages.) *)
+Theorem gen_jobs_fuel_wf_shape_refuted :
+  exists g roots, wf_shape g = true /\ wf_roots g roots = true /\ topo g = true /\
+                  (exists nm, sanitize g roots = Ok nm) /\ run [] false g roots roots = ModelOutOfFuel.
+Proof. exact gen_jobs_fuel_wf_shape_refuted_proof. Qed.
+
+(* non-vacuity: the merge witness satisfies all hypotheses, the run goes through spanning, merging (two
+   merged jobs), numbering, job generation and the build order, and ends with four Jenkins jobs in a DAG *)
+Example fuel_nonvacuous :
+  wf witness_merge_graph = true /\ topo witness_merge_graph = true /\
+  (exists st, span witness_merge_graph witness_merge_roots = Ok st /\ bounded st = true /\
+              refs_ok witness_merge_graph (st_ref st) = true /\ 0 < st_next st /\
+              exists name todo, lookup_str name (st_n2j st) = Some todo /\ 1 < length todo /\
+                                exists jobs st', merge_name (S (length todo)) todo st = Ok (jobs, st') /\
+                                                 length jobs < length todo) /\
+  (exists abs names jobs, run [] false witness_merge_graph witness_merge_roots witness_merge_roots
+                          = Jobs abs names jobs false /\ 2 < length jobs) /\
+  dec 120 = [49; 50; 48]%N.
+Proof. exact fuel_nonvacuous_proof. Qed.
